@@ -4,6 +4,7 @@ import LassoModel.Extracted
 import LassoProofs.Lemmas.ConcEffects
 import LassoProofs.Lemmas.ConcSeq
 import LassoProofs.Lemmas.Config
+import LassoProofs.Lemmas.TInternInterp
 /-
   C03 — concurrent interning is atomic: one key per string under every schedule.
 
@@ -232,6 +233,18 @@ theorem solo_calls_are_sequential_model (sh : Bytes → Nat) (env : Env) (s : CS
           (run sh t.N s (List.replicate n 0)).log = (0, c, resOf (t.tryInternStatic env i).2) :: s.log) :=
   ⟨fun ht => solo_intern_is_sequential sh env s t hR hI x rest ht,
    fun i hp ht => solo_intern_static_is_sequential sh env s t hR hI i x hp rest ht⟩
+
+/-- The sequential model of the concurrent interner *is* the regenerated effect sequences run by one thread:
+the sequences of `try_get_or_intern` / `try_get_or_intern_static` are given a semantics
+(`LassoModel/TInternInterp.lean`: lock-free lookup, shard lock and second lookup, store, key fetch, key check, the
+two inserts) and running them equals `Threaded.tryIntern` / `tryInternStatic` for every state and string.  Together
+with `steps_are_source_operations` (the interleaving machine steps through the same operations) and
+`solo_calls_are_sequential_model` (the machine run by one thread is that sequential model) the three descriptions
+of the interning path - source statements, sequential model, interleaving machine - are tied pairwise. -/
+theorem solo_interning_runs_the_source (env : Env) (t : Threaded) :
+    (∀ x, interpTIntern env Extracted.internEffects t x = t.tryIntern env x) ∧
+    (∀ i, interpTInternStatic env Extracted.internStaticEffects t i = t.tryInternStatic env i) :=
+  ⟨fun x => interp_tintern_is_model env t x, fun i => interp_tintern_static_is_model env t i⟩
 
 /-- The code this file's theorems are about is the same under every feature configuration: the regenerated
 census of conditional compilation contains import blocks, whole serde impls, optional-dependency impls and
